@@ -1,6 +1,7 @@
 (* C19 - obligation over the parameter regenerated from the current Go source
-   (gen/Params_Codec.v: does writeArrowValue's *array.Binary case go through writeJSONString
-   (raw bytes) or through writeJSONBlob (DuckDB text form)?). *)
+   (gen/Params_Codec.v: does writeArrowValue's *array.Binary case go through writeJSONBlob
+   (DuckDB text form, repo commit 48e92ae) or through writeJSONString (raw bytes, the old
+   variant refuted by C19_json_binary_utf8_refuted)?). *)
 From Coq Require Import List NArith ZArith Bool.
 From Arc Require Import Codec.Model Codec.Proofs Codec.Props.
 From ArcGen Require Import Params_Codec.
@@ -9,20 +10,17 @@ Open Scope N_scope.
 
 Definition deployed_blob_mode : blob_mode := if json_blob_duck_text then BlobDuckText else BlobRaw.
 
-(* Status of BLOB cells in the JSON response of the code as it is now: either the repaired
-   encoder is deployed and every blob round-trips through a well-formed token, or the raw
-   encoder is deployed and there is a blob whose token is not UTF-8 (known finding). *)
-Theorem C19_deployed_blob_json :
-  if json_blob_duck_text
-  then forall b t, Forall (fun x => x < 256) b ->
-         json_scan (json_cell_m deployed_blob_mode TBin (VBytes b) ++ t) = Some (blob_text b, t)
-         /\ blob_text_decode (blob_text b) = Some b
-         /\ utf8_valid (json_cell_m deployed_blob_mode TBin (VBytes b)) = true
-         /\ no_ctl (json_cell_m deployed_blob_mode TBin (VBytes b)) = true
-  else exists b, cell_ok TBin (VBytes b) = true /\ Forall (fun x => x < 256) b /\
-         utf8_valid (json_cell_m deployed_blob_mode TBin (VBytes b)) = false.
-Proof.
-  unfold deployed_blob_mode, json_blob_duck_text.
-  first [exact C19_json_blob_text_form | exact C19_json_binary_utf8_refuted].
-Qed.
+(* PRIMARY statement about BLOB cells of the JSON response produced by the encoder found in
+   the CURRENT source: for every blob and every continuation of the document, the token is
+   scanned (RFC 8259) to DuckDB's text form of the blob and stops at its closing quote, the
+   text form parses back to exactly the blob, and the token is well-formed UTF-8 without raw
+   control bytes.  The statement only type-checks into a proof while the regenerated
+   parameter says the repaired encoder is deployed; with the old raw encoder it fails to
+   compile and the check reports the witness of C19_json_binary_utf8_refuted. *)
+Theorem C19_deployed_blob_json : forall b t, Forall (fun x => x < 256) b ->
+  json_scan (json_cell_m deployed_blob_mode TBin (VBytes b) ++ t) = Some (blob_text b, t)
+  /\ blob_text_decode (blob_text b) = Some b
+  /\ utf8_valid (json_cell_m deployed_blob_mode TBin (VBytes b)) = true
+  /\ no_ctl (json_cell_m deployed_blob_mode TBin (VBytes b)) = true.
+Proof. unfold deployed_blob_mode, json_blob_duck_text. exact C19_json_blob_text_form. Qed.
 Print Assumptions C19_deployed_blob_json.
